@@ -45,16 +45,16 @@ def history_strategy():
 
 
 def legal_history(n, max_ingest, ops):
-    """drop operations whose caller-side precondition does not hold (a live name is provisioned at
-    most once - BatchProcessing._provision_resources checks is_observation_provisioned first)"""
+    """executes a generated history; some operations are steered towards the interesting classes (see below)"""
     from .clusterops import ClusterOpsModel
     m = ClusterOpsModel(n, max_ingest)
     out = []
     for i, op in enumerate(ops):
         if m.dead:
             break
-        if op[0] == 'provision' and op[2] in m.tr.res_live:
-            continue
+        if op[0] == 'provision' and op[2] in m.tr.res_live and i % 2:
+            continue      # the shipped BatchProcessing never re-provisions a live name; a user algorithm may top one up:
+                          # half of such operations are kept
         if op[0] == 'release' and op[1] not in m.tr.res_live and m.tr.res_live and i % 3:
             live = sorted(m.tr.res_live)
             op = ['release', live[i % len(live)]]      # steer most releases to live reservations
